@@ -88,6 +88,7 @@ type Scenario struct {
 	Steps       []Step `json:"steps"`
 	CustomExec  bool   `json:"customexec"` // register application executors MYCMD / mycmd2
 	Concurrent  bool   `json:"concurrent"` // every connection is driven by its own goroutine (true concurrency)
+	Model       bool   `json:"model"`      // replies (and the ref store's contents) are judged against RedisModel.tla
 }
 
 func goid() int64 {
@@ -281,12 +282,13 @@ func (rn *runner) run(s Scenario) bool {
 	for i := range conns {
 		conns[i] = &connRun{sc: newSconn(i, rn.rec), done: make(chan struct{}), sentAt: time.Now()}
 	}
-	server, _ := rn.newServer(s, conns)
+	server, handler := rn.newServer(s, conns)
+	rs, _ := handler.(*refStore)
 	if s.Handler == "" {
 		s.Handler = "rec"
 	}
 	rn.rec.Emit(Ev{"ev": "scenario", "requirepass": s.RequirePass != "", "pw": BS(symBytes[s.RequirePass]), "handler": s.Handler,
-		"tracer": s.Tracer, "nconns": n, "authdouble": s.AuthDouble, "customexec": s.CustomExec})
+		"tracer": s.Tracer, "nconns": n, "authdouble": s.AuthDouble, "customexec": s.CustomExec, "model": s.Model})
 	started := make([]bool, n)
 	ok := true
 	var okmu sync.Mutex
@@ -348,6 +350,9 @@ func (rn *runner) run(s Scenario) bool {
 					rn.stall(cr)
 					fail()
 					break
+				}
+				if rs != nil && s.Model && !s.Concurrent {
+					rn.rec.Emit(Ev{"ev": "store", "c": st.C, "dbs": rs.dump()})
 				}
 			}
 		case "halfclose":
